@@ -994,7 +994,7 @@ impl Scenario for C16 {
     }
     fn runs(&self, tier: Tier) -> u64 {
         match tier {
-            Tier::Quick => 64,
+            Tier::Quick => 32,
             Tier::Thorough => 6000,
         }
     }
